@@ -104,8 +104,10 @@ class LazySparse(Sparse_):
         return len(self._load_or_get())
 
     def keys(self) -> abc.KeysView:
+        #in the order of items(), not a set: the iteration order of a set of strings depends on the interpreter's hash seed
         hdr_inv_get = self._inv.__getitem__ if self._inv else lambda x:x
-        return set(map(hdr_inv_get, self._load_or_get().keys() | self._nsp))
+        row = self._load_or_get()
+        return dict.fromkeys(map(hdr_inv_get, chain(row.keys(), (k for k in self._nsp if k not in row)))).keys()
 
     def items(self) -> Sequence:
         inv = self._inv
@@ -217,7 +219,7 @@ class HeadSparse(Sparse_):
 
     def keys(self) -> abc.KeysView:
         head_map_inv_get = self._inv.__getitem__
-        return set(map(head_map_inv_get, self._row.keys()))
+        return dict.fromkeys(map(head_map_inv_get, self._row.keys())).keys()
 
     def items(self) -> Sequence:
         head_map_inv_get = self._inv.__getitem__
@@ -273,17 +275,22 @@ class EncodeSparse(Sparse_):
             if key in self._nsp: return self._enc.get(key, lambda x:x)("0")
 
     def __iter__(self) -> Iterator:
-        return iter(self._row.keys() | self._nsp)
+        return iter(self.keys())
 
     def __len__(self) -> int:
         return len(self._row.keys() | self._nsp)
 
+    def _nsp_missing(self) -> Sequence:
+        #in the encoders' order (every not-sparse key has an encoder): the order of a set of strings depends on the hash seed
+        row_keys = self._row.keys()
+        return [k for k in self._enc if k in self._nsp and k not in row_keys]
+
     def keys(self) -> abc.KeysView:
-        return self._row.keys() | self._nsp
+        return dict.fromkeys(chain(self._row.keys(), self._nsp_missing())).keys()
 
     def items(self) -> Sequence:
         t1 = tuple((k, self._enc.get(k,lambda x:x)(v)) for k,v in self._row.items())
-        t2 = tuple((k, self._enc[k]("0")) for k in self._nsp-self._row.keys())
+        t2 = tuple((k, self._enc[k]("0")) for k in self._nsp_missing())
         return t1+t2
 
 class EncodeRows(Filter[Iterable[Union[Dense,Sparse]],Iterable[Union[Dense,Sparse]]]):
@@ -367,13 +374,14 @@ class DropSparse(Sparse_):
         return self._row[self._key_check(key)]
 
     def __iter__(self) -> Iterator:
-        return iter(self._row.keys()-self._drop_set)
+        return iter(self.keys())
 
     def __len__(self) -> int:
         return len(self.keys())
 
     def keys(self) -> abc.KeysView:
-        return self._row.keys() - self._drop_set
+        drop = self._drop_set
+        return dict.fromkeys(k for k in self._row.keys() if k not in drop).keys()
 
     def items(self) -> Sequence:
         drop = self._drop_set
@@ -486,13 +494,13 @@ class LabelSparse(Sparse_):
             raise
 
     def __iter__(self) -> Iterator:
-        return iter(self._row.keys() | {self._key})
+        return iter(self.keys())
 
     def __len__(self) -> int:
         return len(self._row.keys() | {self._key})
 
     def keys(self) -> abc.KeysView:
-        return self._row.keys() | {self._key}
+        return dict.fromkeys(chain(self._row.keys(), [self._key])).keys()
 
     def items(self) -> Sequence:
         key = self._key
